@@ -777,3 +777,89 @@ Lemma c11_run_example :
             wst s = WTerminated /\ length (wire s) = 2%nat /\
             sse_parse (stream_supplied (wire s)) = [([], [120]); ([116], [97; 10; 98])].
 Proof. eexists. vm_compute. repeat split. Qed.
+
+(* ============================================================================================
+   Part 4: the known finding D17 (oversize event) and the lossless clauses modulo its class
+   ============================================================================================ *)
+Definition fits (cap : nat) (e : event) : Prop := (length (encode_event e) <= cap)%nat.
+
+Lemma step_fits cap s a s' :
+  Forall (fits cap) (queue s) -> wst s <> WReaderErr -> oversize_action cap a = false ->
+  cstep true cap s a = Some s' -> Forall (fits cap) (queue s') /\ wst s' <> WReaderErr.
+Proof.
+  intros F W O Hs. destruct a; cbn [cstep oversize_action] in *.
+  - destruct (find_h i (handles s)) as [h|]; [|discriminate].
+    destruct (h_conn h); [|injection Hs as <-; auto].
+    destruct (recv_alive s && (length (queue s) <? queue_cap)%nat); injection Hs as <-; cbn; [|auto].
+    split; [|exact W]. apply Forall_app. split; [exact F|]. constructor; [|constructor].
+    unfold fits. apply Nat.ltb_ge. exact O.
+  - destruct (find_h i (handles s)); [|discriminate]. injection Hs as <-. cbn. auto.
+  - destruct (find_h i (handles s)); [|discriminate]. injection Hs as <-. cbn. auto.
+  - destruct (find_h i (handles s)); [|discriminate]. injection Hs as <-. cbn. auto.
+  - destruct (wst s) eqn:Ws; try (injection Hs as <-; rewrite Ws; split; [exact F|congruence]).
+    destruct (queue s) as [|e q] eqn:Q.
+    + destruct (Nat.eqb (live_senders s) 0).
+      * destruct (client_gone s); injection Hs as <-; cbn; split; try constructor; discriminate.
+      * injection Hs as <-. rewrite Q, Ws. split; [constructor|discriminate].
+    + inversion F as [|? ? Fe Fq]; subst. fold encode_event in Hs.
+      assert (B : Nat.ltb cap (length (encode_event e)) = false) by (apply Nat.ltb_ge; exact Fe).
+      rewrite B in Hs. destruct (encode_event e).
+      * destruct (client_gone s); injection Hs as <-; cbn; split; try exact Fq; discriminate.
+      * destruct (client_gone s); injection Hs as <-; cbn; split; try exact Fq; try discriminate;
+          try (rewrite Ws; discriminate).
+  - injection Hs as <-. cbn. auto.
+Qed.
+
+Lemma run_fits cap tr : forall s s',
+  Forall (fits cap) (queue s) -> wst s <> WReaderErr -> kf_c11_oversize_event cap tr = false ->
+  crun true cap s tr = Some s' -> Forall (fits cap) (queue s') /\ wst s' <> WReaderErr.
+Proof.
+  induction tr as [|a t IH]; intros s s' F W K H; cbn in H.
+  - injection H as <-. auto.
+  - unfold kf_c11_oversize_event in K. cbn [existsb] in K. apply orb_false_iff in K as [Ka Kt].
+    destruct (cstep true cap s a) as [s1|] eqn:E; [|discriminate].
+    destruct (step_fits _ _ _ _ F W Ka E) as [F1 W1]. exact (IH s1 s' F1 W1 Kt H).
+Qed.
+
+(* outside the class: write_to never fails, nothing accepted is ever dropped by the writer, and
+   once all senders are gone (client present) the queue is delivered and the stream terminated *)
+Lemma lossless_modulo_oversize_l cap tr s :
+  crun true cap cinit tr = Some s -> kf_c11_oversize_event cap tr = false ->
+  wst s <> WReaderErr /\
+  Forall (fun e => (length (encode_event e) <= cap)%nat) (queue s) /\
+  (wst s = WActive -> live_senders s = O -> client_gone s = false ->
+   exists s', crun true cap s (repeat WriterPoll (S (length (queue s)))) = Some s' /\ wst s' = WTerminated /\
+              wire s' = map encode_event (accepted s')).
+Proof.
+  intros H K. destruct (run_fits cap tr cinit s (Forall_nil _) ltac:(cbn; discriminate) K H) as [F W].
+  split; [exact W|]. split; [exact F|]. intros A L G.
+  exact (terminator_when_all_senders_gone_l cap tr s H A L G F).
+Qed.
+
+Definition lossless_no_oversize (s : cst) : bool := match wst s with WWriterErr => false | _ => true end.
+
+Lemma oracle_c11_sound_modulo_oversize_l cap tr s :
+  N.of_nat cap < 65536 -> crun true cap cinit tr = Some s -> kf_c11_oversize_event cap tr = false ->
+  Forall (fun e => ev_wf e = true) (accepted s) ->
+  oracle_c11_modulo (accepted s) (wire_bytes s) (is_term s) (Nat.eqb (live_senders s) 0) (lossless_no_oversize s)
+                    (drained_of s) [(is_term s, negb (Nat.eqb (live_senders s) 0))] = VOk.
+Proof.
+  intros Hc H K W. destruct (lossless_modulo_oversize_l cap tr s H K) as (NR&_&_).
+  replace (lossless_no_oversize s) with (lossless_of s).
+  - apply (oracle_c11_model_sound_l cap tr s); assumption.
+  - unfold lossless_no_oversize, lossless_of. destruct (wst s); try reflexivity. congruence.
+Qed.
+
+(* inside the class the lossless clauses fail: D17.  Buffer of 8 bytes; "data: aaaa\n" needs 11.
+   Both events were accepted (the sender still reports connected), nothing reaches the wire, the
+   copy ends with ReaderErr and no terminating chunk, and the oracle WITH its lossless clauses
+   rejects the model's own observation. *)
+Definition d17_trace : list caction := [Send 0 (Message [97; 97; 97; 97]); Send 0 ev_x; WriterPoll; DropSender 0; WriterPoll].
+Lemma oversize_event_lost_refuted_l :
+  kf_c11_oversize_event 8 d17_trace = true /\
+  exists s, crun true 8 cinit d17_trace = Some s /\
+            wst s = WReaderErr /\ wire s = [] /\ wire_bytes s = [] /\ length (accepted s) = 2%nat /\
+            live_senders s = O /\
+            oracle_c11_modulo (accepted s) (wire_bytes s) (is_term s) true true true [] = VTerminator /\
+            oracle_c11_modulo (accepted s) (wire_bytes s) (is_term s) true false true [] = VOk.
+Proof. split; [reflexivity|]. eexists. vm_compute. repeat split. Qed.
